@@ -52,6 +52,10 @@ type AdvScenario struct {
 	LegitAdmin string   `json:"legit_admin,omitempty"` // "remove": the legitimate controller removes the pairing of "peer-paired"; "rekey": it stores a new key for it
 	Unpaired   bool     `json:"unpaired"`              // no controller pairing is stored when the run starts
 	PreVerify  bool     `json:"pre_verify"`            // every peer connection starts with an honest pair-verify (C13: hostile input after verification)
+	// Twin: the legitimate controller's connection comes from the same remote ip:port as the first
+	// peer connection, to another address of the (multi-homed) accessory. A peer gets there by
+	// binding its socket to the port a controller on the same host uses (SO_REUSEPORT).
+	Twin bool `json:"twin,omitempty"`
 	Ops        []AdvOp  `json:"ops"`
 	Sched      []uint16 `json:"sched"`
 }
@@ -122,6 +126,7 @@ func genAdv(prop string) func(rt *rapid.T) interface{} {
 				sc.LegitSetup = true
 			}
 			sc.LegitOps = rapid.IntRange(1, 6).Draw(rt, "lops")
+			sc.Twin = sc.Legit && rapid.IntRange(0, 5).Draw(rt, "twin") == 0
 			sc.AppOps = rapid.IntRange(0, 4).Draw(rt, "aops")
 			sc.Resource = rapid.Bool().Draw(rt, "res")
 			nconn = rapid.IntRange(1, 3).Draw(rt, "nconn")
@@ -255,6 +260,7 @@ type advWorld struct {
 	legitWrites     map[string]bool
 	legitDone       bool
 	legitErr        string
+	peersAllDone    bool
 	appDone         bool
 	capturedM5      []byte // encrypted-data value of the legitimate controller's M5
 	capturedSetup   [][]byte // the bodies of the legitimate controller's three pair-setup requests
@@ -1226,7 +1232,24 @@ func runAdv(t *testing.T, sci interface{}) *Outcome {
 		if sc.Legit {
 			w.Sim.Go("legit", func() {
 				defer func() { aw.legitDone = true }()
-				cl, c := w.NewClient("legit")
+				var cl *ref.Client
+				var c *core.Conn
+				if sc.Twin {
+					w.StepWhen("legit", "twin: wait for the first peer connection", func() bool {
+						return (len(aw.slots) > 0 && aw.slots[0].conn != nil) || aw.peersAllDone
+					})
+					if w.Sim.InTeardown() {
+						return
+					}
+				}
+				if sc.Twin && len(aw.slots) > 0 && aw.slots[0].conn != nil {
+					c = w.Sim.DialTo(w.Sim.Listener, aw.slots[0].conn.Client().LocalAddr().String(), "10.0.1.1:51826")
+					cl = &ref.Client{Conn: c.Client(), Rand: w.Rand}
+					cl.Yield = func(what string) { w.Sim.Park("step", "legit", c.ID, " "+what, nil) }
+					w.Sim.Count("fault.twin_connection_same_remote_address")
+				} else {
+					cl, c = w.NewClient("legit")
+				}
 				aw.legitConn = c.ID
 				accLTPK := w.AccLTPK
 				if sc.LegitSetup {
@@ -1348,7 +1371,7 @@ func runAdv(t *testing.T, sci interface{}) *Outcome {
 				}
 			}
 			w.Sim.Go(p.name, func() {
-				defer func() { peersDone++ }()
+				defer func() { peersDone++; aw.peersAllDone = peersDone == nslots }()
 				for _, op := range ops {
 					w.Step(p.name, op.Kind)
 					if w.Sim.InTeardown() {
@@ -1667,7 +1690,7 @@ func (aw *advWorld) finalChecks(allDone bool) {
 			}
 		}
 	}
-	if sc.Legit && aw.legitErr != "" && (sc.Prop == "C01" || sc.Prop == "C02") {
+	if sc.Legit && aw.legitErr != "" && (sc.Prop == "C01" || sc.Prop == "C02") && !sc.Twin {
 		aw.violate("legit-controller-disturbed", "the legitimate controller failed while the peer was active: %s", aw.legitErr)
 	}
 	_ = allDone
